@@ -207,6 +207,8 @@ def declSJ (d : DeclS) : Json :=
   Json.mkObj [("kind", d.kind), ("name", d.name), ("scope", d.scope), ("mods", strsJ d.mods),
     ("fields", membersJ d.fields), ("ctor", membersJ d.ctor), ("methods", Json.arr (d.methods.map methodJ).toArray),
     ("items", strsJ d.items),
-    ("codes", Json.arr (d.codes.map (fun k => Json.mkObj [("name", k.name), ("fields", membersJ k.fields), ("ctor", membersJ k.ctor)])).toArray)]
+    ("fmods", strsJ d.fmods),
+    ("codes", Json.arr (d.codes.map (fun k => Json.mkObj [("name", k.name), ("fields", membersJ k.fields), ("ctor", membersJ k.ctor),
+      ("fmods", strsJ k.fmods), ("methods", Json.arr (k.methods.map methodJ).toArray)])).toArray)]
 
 end Pydjinni.Drv.GenJson
